@@ -438,8 +438,15 @@ func (m *SeqMon) End(w *World) {
 		if c.Disposed {
 			continue
 		}
+		confirmed := c.Client.Confirmed()
 		for rid, cr := range c.Client.Store {
 			if cr.Kind == "error" || cr.Deleted {
+				continue
+			}
+			// only what is reachable from a confirmed subscription goes on
+			// receiving events (not the data of a get request, nor the target of
+			// a request that is still outstanding)
+			if !confirmed[rid] {
 				continue
 			}
 			key := ridKey(w, c, rid)
